@@ -20,7 +20,14 @@ type kvEnt struct {
 
 type KV struct {
 	ents []kvEnt
+	// wlog records the keys of the Set / Delete operations that reached this store, in order, including re-writes of
+	// an unchanged value (in an IAVL store such a write still creates a new node version and changes the root hash)
+	wlog [][]byte
 }
+
+// WriteLog returns the keys written (set or deleted) since ResetWriteLog, in order.
+func (s *KV) WriteLog() [][]byte { return s.wlog }
+func (s *KV) ResetWriteLog()     { s.wlog = nil }
 
 func (s *KV) clone() *KV {
 	c := &KV{ents: make([]kvEnt, len(s.ents))}
@@ -69,6 +76,7 @@ func (s *KV) Set(key, value []byte) {
 	}
 	k := append([]byte(nil), key...)
 	v := append([]byte{}, value...)
+	s.wlog = append(s.wlog, k)
 	if i := s.find(key); i >= 0 {
 		s.ents[i].v = v
 		return
@@ -81,6 +89,7 @@ func (s *KV) Delete(key []byte) {
 		panic("nil key")
 	}
 	if i := s.find(key); i >= 0 {
+		s.wlog = append(s.wlog, append([]byte{0xff, 'D'}, key...))
 		s.ents = append(s.ents[:i:i], s.ents[i+1:]...)
 	}
 }
@@ -184,6 +193,31 @@ func (ms *MS) idx(key storetypes.StoreKey) int {
 }
 
 func (ms *MS) KV(key storetypes.StoreKey) *KV { return ms.stores[ms.idx(key)] }
+
+// ResetWriteLogs / SameWriteLogs: the sequences of store writes of two multistores (see KV.wlog).
+func (ms *MS) ResetWriteLogs() {
+	for _, s := range ms.stores {
+		s.ResetWriteLog()
+	}
+}
+
+func SameWriteLogs(a, b *MS) bool {
+	if len(a.stores) != len(b.stores) {
+		return false
+	}
+	for i := range a.stores {
+		x, y := a.stores[i].wlog, b.stores[i].wlog
+		if len(x) != len(y) {
+			return false
+		}
+		for k := range x {
+			if !bytes.Equal(x[k], y[k]) {
+				return false
+			}
+		}
+	}
+	return true
+}
 
 func (ms *MS) GetStoreType() storetypes.StoreType { return storetypes.StoreTypeMulti }
 func (ms *MS) CacheWrap() storetypes.CacheWrap    { return ms.CacheMultiStore().(storetypes.CacheWrap) }
